@@ -499,11 +499,13 @@ def all_jobs(tier, seed, props):
     deep = ([d for i, d in enumerate(DEEP) if i != 2] if tier == 'quick' else DEEP + DEEP2) + DEEP_TYPES + DEEP_DEPOTS
     for k, sc in enumerate(deep): js.append(dict(name='deep script %d' % k, func='job_script', kwargs=dict(tier=tier, variant=sc[0], prefix=sc[1], props=props, explicit=True)))
     if tier == 'thorough':
-        for i in (0, 3, 4):
-            for j in range(0, 64, 2):
-                for lo in range(0, 96, 16): js.append(dict(name='scripts len 3, first ops %d %d.., third %d..' % (i, j, lo), func='job_script', kwargs=dict(tier=tier, variant=0, prefix=[i, j], props=props, lo=lo, hi=lo + 16)))
-        for i in range(16):
-            for lo in range(0, 96, 16): js.append(dict(name='two types: scripts len 2, first op %d, second %d..' % (i, lo), func='job_script', kwargs=dict(tier=tier, variant=1, prefix=[i], props=props, lo=lo, hi=lo + 16)))
+        # measured: a chunk of 16 third operations after a productive prefix ran for 5-50 min; chunks of 4 keep the jobs balanced
+        # (each job additionally has a wall-clock cap, see harness: a capped job is reported as not explored)
+        for i in (0, 3):
+            for j in range(0, 32, 2):
+                for lo in range(0, 72, 4): js.append(dict(name='scripts len 3, first ops %d %d, third %d..%d' % (i, j, lo, lo + 3), func='job_script', kwargs=dict(tier=tier, variant=0, prefix=[i, j], props=props, lo=lo, hi=lo + 4)))
+        for i in range(0, 16, 2):
+            for lo in range(0, 72, 4): js.append(dict(name='two types: scripts len 2, first op %d, second %d..%d' % (i, lo, lo + 3), func='job_script', kwargs=dict(tier=tier, variant=1, prefix=[i], props=props, lo=lo, hi=lo + 4)))
     return js
 
 # explicit deeper scripts: (variant, [ops]); node numbers follow netbuild (variant 0: depots 0..3, trips 4,5,6, slot 7)
